@@ -236,6 +236,15 @@ def main(argv):
         sel = [u for u in units if a.prop in u['props']]
         if a.tier == 'quick':
             sel = [u for u in sel if not u['thorough_only']]
+            if a.prop == 'C01':
+                # the union property re-runs every unit of every other property; its quick tier leaves out the handful that need more than 150 s
+                # alone (lib/timings.json: the line-oriented state functions, the unbounded URI splitter, the deep reference units) - they run in the
+                # quick tier of the property they were written for and in C01's thorough tier
+                try:
+                    tm1 = json.load(open(os.path.join(VERIF, 'lib', 'timings.json')))
+                except OSError:
+                    tm1 = {}
+                sel = [u for u in sel if tm1.get(u['name'], 0) <= 150 or u['props'][0] == 'C01' or u['name'] in ('htp_connp_req_data', 'htp_connp_res_data')]
             if a.prop == 'C19':
                 # the frame property re-runs contract units that other properties already run; its quick tier keeps the ones that finish
                 # within a minute on the reference box (lib/timings.json, measured), the thorough tier runs all of them
